@@ -5,9 +5,9 @@ import (
 	"context"
 )
 
-func zzBatchKeys() [][]byte {
+func zzBatchKeys(n int) [][]byte {
 	keys := [][]byte{zzKey("q0"), zzKeyNE("q1")}
-	if zzParam("nbatch", 2) >= 3 {
+	if n >= 3 {
 		keys = append(keys, zzKeyNE("q2"))
 	}
 	return keys
@@ -17,11 +17,11 @@ func zzBatchKeys() [][]byte {
 // ordered map (nil when absent), duplicates included, whatever regions the keys
 // fall into and when one region's batch meets a topology change.
 func ZZ_C11_batch_get() {
-	nreg := zzParam("nreg", 2)
-	w := zzNewWorld(zzParam("bkeys", 2), nreg, true)
+	nreg := zzParam("gnreg", 2)
+	w := zzNewWorld(zzParam("gkeys", 2), nreg, true)
 	defer w.close()
 	w.batchVariant(zzChoice("variant", zzBatchVariants(nreg)))
-	keys := zzBatchKeys()
+	keys := zzBatchKeys(zzParam("gbatch", 2))
 	vals, err := w.cli.BatchGet(context.Background(), keys)
 	zzAssert(err == nil, "batchget.no-error")
 	zzAssert(len(vals) == len(keys), "batchget.length")
@@ -41,7 +41,7 @@ func ZZ_C11_batch_put() {
 	w := zzNewWorld(zzParam("bkeys", 2), nreg, false)
 	defer w.close()
 	w.batchVariant(zzChoice("variant", zzBatchVariants(nreg)))
-	keys := zzBatchKeys()
+	keys := zzBatchKeys(zzParam("nbatch", 2))
 	vals := [][]byte{zzBytesN("w0", 1), zzBytesN("w1", 1)}
 	if len(keys) >= 3 {
 		vals = append(vals, zzBytesN("w2", 1))
@@ -61,7 +61,7 @@ func ZZ_C11_batch_delete() {
 	w := zzNewWorld(zzParam("bkeys", 2), nreg, false)
 	defer w.close()
 	w.batchVariant(zzChoice("variant", zzBatchVariants(nreg)))
-	keys := zzBatchKeys()
+	keys := zzBatchKeys(zzParam("nbatch", 2))
 	err := w.cli.BatchDelete(context.Background(), keys)
 	zzAssert(err == nil, "batchdelete.no-error")
 	for i := range keys {
